@@ -94,6 +94,8 @@ impl WalIndex {
         // A rename is durable only once the directory has been synced; without this a
         // power loss brings back the previous index (consumed entries are redelivered).
         if let Some(dir) = std::path::Path::new(&self.path).parent() {
+            #[cfg(walrus_verif)]
+            crate::wal::verif::io_check(crate::wal::verif::IoKind::DirFsync, &dir.to_string_lossy(), "", 0, 0)?;
             fs::File::open(dir)?.sync_all()?;
         }
         Ok(())
